@@ -252,8 +252,9 @@ def run(ctx):
                                   'the initial derivation has no old SK_d'), key=('O3', q, 'old_sk_d'), site=ctx.site(fi, c.node),
                       detail={'found': tq.text(b['old_sk_d']) if 'old_sk_d' in b else None})
             if rekey:
-                succ = [v for t, v, _, _, s in S.stores if t == attr(P('self'), 'new_ike_sa') and s < c.seq]
-                ok = c.recv == attr(P('self'), 'new_ike_sa') or (bool(succ) and c.recv == succ[-1])
+                # (the object may be bound to self.new_ike_sa before or after the derivation ran on it)
+                succ = [v for t, v, _, _, s in S.stores if t == attr(P('self'), 'new_ike_sa') and (s < c.seq or tq.is_call(v, 'new ikesa.IkeSa'))]
+                ok = c.recv == attr(P('self'), 'new_ike_sa') or (bool(succ) and c.recv in succ)
             else:
                 ok = c.recv == P('self')
             ctx.check(ok, 'O3', '%s: the keys are derived on %s' % (fi.name, 'the successor IKE_SA' if rekey else 'this IKE_SA'),
